@@ -297,11 +297,24 @@ class ThreeQubitDiagonalGate(raw_types.Gate):
         """
 
         a, b, c = qubits
+        order = (0, 1, 2)
         if hasattr(b, 'is_adjacent'):
             if not b.is_adjacent(a):
                 b, c = c, b
+                order = (0, 2, 1)
             elif not b.is_adjacent(c):
                 a, b = b, a
+                order = (1, 0, 2)
+        # The angles are indexed by the bits of the given qubit order: re-index them for (a, b, c).
+        angles = [self._diag_angles_radians[0]] * 8
+        for new_index in range(8):
+            new_bits = ((new_index >> 2) & 1, (new_index >> 1) & 1, new_index & 1)
+            old_bits = [0, 0, 0]
+            for i in range(3):
+                old_bits[order[i]] = new_bits[i]
+            angles[new_index] = self._diag_angles_radians[
+                4 * old_bits[0] + 2 * old_bits[1] + old_bits[2]
+            ]
         sweep_abc = [common_gates.CNOT(a, b), common_gates.CNOT(b, c)]
         phase_matrix_inverse = 0.25 * np.array(
             [
@@ -314,9 +327,7 @@ class ThreeQubitDiagonalGate(raw_types.Gate):
                 [1, 1, -1, -1, 1, 1, -1],
             ]
         )
-        shifted_angles_tail = [
-            angle - self._diag_angles_radians[0] for angle in self._diag_angles_radians[1:]
-        ]
+        shifted_angles_tail = [angle - angles[0] for angle in angles[1:]]
         phase_solutions = phase_matrix_inverse.dot(shifted_angles_tail)
         p_gates = [pauli_gates.Z ** (solution / np.pi) for solution in phase_solutions]
         global_phase = 1j ** (2 * self._diag_angles_radians[0] / np.pi)
